@@ -166,8 +166,8 @@ func rulePendingInputRowOwners(c *report.Ctx) {
 			callers := p.Callers(g)
 			n := 0
 			for _, cl := range callers {
-				if cl.E.Kind == "ref" || !p.InModule(cl.From) {
-					continue
+				if !p.InModule(cl.From) {
+					continue // ("ref" edges count: a method value or literal handed to Update runs on behalf of its creator)
 				}
 				n++
 				if !up(apiOwnerOrSelf(p, cl.From), d+1) {
@@ -823,116 +823,60 @@ func ruleStakingUseMarksStandardForm(c *report.Ctx) {
 	}
 }
 
-// ruleSuspendRefusesOnlyOnQuit (C20): the hand-shake reports "not parked" only when the handler is shutting down.
+// ruleSuspendRefusesOnlyOnQuit (C20): the hand-shake gives up only when the handler is shutting down.
 func ruleSuspendRefusesOnlyOnQuit(c *report.Ctx) {
 	p := c.P
-	c.Rule("suspend-refuses-only-on-quit", "a function that performs the suspend hand-shake and reports its outcome as a bool returns false only on the select case that received from NtfnsHandler.quit: asyncRemove turns a false into ErrTaskAbort and the worker deliberately does not re-queue an aborted removal (the process is going down) — any other reason to answer false (a timeout while the follower is busy) silently drops an accepted removal, which then never finishes", 1)
-	hs := handShakeOf(p)
+	c.Rule("suspend-refuses-only-on-quit", "every select that offers the suspend signal (a send on NtfnsHandler.sigSuspend) is blocking and has exactly one other way out: the receive from NtfnsHandler.quit. asyncRemove turns 'not parked' into ErrTaskAbort and the worker deliberately does not re-queue an aborted removal (the process is going down) — any further case (a timer while the follower is busy, a default) silently drops an accepted removal, which then never finishes", 1)
 	n := 0
-	var fs []*ssa.Function
-	for f := range hs.suspendFns {
-		fs = append(fs, f)
-	}
-	sortFuncs(fs)
-	for _, f := range fs {
-		res := f.Signature.Results()
-		if res.Len() != 1 || !isBoolT(res.At(0).Type()) || f.Blocks == nil {
+	for _, f := range p.ModFuncs {
+		if pk := an.FuncPkg(f); pk == nil || pk.Path() != pkgWallet {
 			continue
 		}
-		var sel *ssa.Select
+		cnt := 0
 		an.Instrs(f, func(in ssa.Instruction) {
-			if s, ok := in.(*ssa.Select); ok && sel == nil {
-				for _, st := range s.States {
-					if st.Dir == types.SendOnly && strings.HasSuffix(p.Desc(st.Chan), "sigSuspend") {
-						sel = s
-					}
+			sel, ok := in.(*ssa.Select)
+			if !ok {
+				return
+			}
+			offers := false
+			for _, st := range sel.States {
+				if st.Dir == types.SendOnly && strings.HasSuffix(p.Desc(st.Chan), "sigSuspend") {
+					offers = true
 				}
 			}
-		})
-		if sel == nil {
-			continue
-		}
-		quitIdx := -1
-		for i, st := range sel.States {
-			if st.Dir == types.RecvOnly && strings.HasSuffix(p.Desc(st.Chan), "NtfnsHandler.quit") {
-				quitIdx = i
+			if !offers {
+				return
 			}
-		}
-		n++
-		key := sk(f) + ":false=>quit"
-		if quitIdx < 0 {
-			c.Fail(key, "the suspend hand-shake no longer watches the quit channel", posOf(c, sel))
-			continue
-		}
-		bad := false
-		for _, b := range f.Blocks {
-			r, ok := b.Instrs[len(b.Instrs)-1].(*ssa.Return)
-			if !ok || len(r.Results) != 1 {
-				continue
-			}
-			rv := an.RetOperand(r, 0)
-			if ld, isLd := rv.(*ssa.UnOp); isLd { // spilled result (the function has a defer): the last store in this block
-				if cell, isCell := ld.X.(*ssa.Alloc); isCell {
-					if v := lastStoreIn(b, cell); v != nil {
-						rv = v
-					}
+			n++
+			cnt++
+			key := siteKey(f, "suspend-select", cnt)
+			var extra []string
+			hasQuit := false
+			for _, st := range sel.States {
+				d := p.Desc(st.Chan)
+				switch {
+				case st.Dir == types.SendOnly && strings.HasSuffix(d, "sigSuspend"):
+				case st.Dir == types.RecvOnly && strings.HasSuffix(d, "NtfnsHandler.quit"):
+					hasQuit = true
+				default:
+					extra = append(extra, d)
 				}
-			}
-			k, isK := rv.(*ssa.Const)
-			if !isK || k.Value == nil || k.Value.ExactString() != "false" {
-				continue
-			}
-			// which select cases can lead here?
-			possible := map[int]bool{}
-			for i := range sel.States {
-				possible[i] = true
 			}
 			if !sel.Blocking {
-				possible[-1] = true
+				extra = append(extra, "default")
 			}
-			for _, a := range p.Guards(b) {
-				ex, isEx := a.X.(*ssa.Extract)
-				if !isEx || ex.Tuple != ssa.Value(sel) || ex.Index != 0 {
-					continue
-				}
-				kc, isC := a.Y.(*ssa.Const)
-				if !isC || kc.Value == nil {
-					continue
-				}
-				v, exact := constantInt64FromString(kc.Value.ExactString())
-				if !exact {
-					continue
-				}
-				for i := range possible {
-					switch a.Op {
-					case token.EQL:
-						if int64(i) != v {
-							delete(possible, i)
-						}
-					case token.NEQ:
-						if int64(i) == v {
-							delete(possible, i)
-						}
-					}
-				}
+			switch {
+			case !hasQuit:
+				c.Fail(key, "the suspend hand-shake does not watch the quit channel", posOf(c, in))
+			case len(extra) > 0:
+				c.Fail(key, "the suspend hand-shake can also end on "+strings.Join(extra, ", ")+": the task then reports 'not parked', which the removal path treats as shutdown (ErrTaskAbort, not re-queued) — an accepted removal is silently dropped while the process keeps running", posOf(c, in))
+			default:
+				c.OK(key, "send on sigSuspend or receive from quit, nothing else", posOf(c, in))
 			}
-			for i := range possible {
-				if i != quitIdx && !bad {
-					bad = true
-					what := "another select case"
-					if i >= 0 && i < len(sel.States) {
-						what = "the case on " + p.Desc(sel.States[i].Chan)
-					}
-					c.Fail(key, nm(f)+" can answer false on "+what+", not only when quit is closed: the removal task treats false as 'shutting down' (ErrTaskAbort) and is not re-queued, so a wallet whose removal was accepted stays half-removed until the next restart", posOf(c, r))
-				}
-			}
-		}
-		if !bad {
-			c.OK(key, "false is returned on the quit case only", posOf(c, sel))
-		}
+		})
 	}
 	if n == 0 {
-		c.Fail("suspend", "no bool-valued suspend hand-shake function found (anchor lost)", "")
+		c.Fail("suspend-select", "no select offering the suspend signal found (anchor lost)", "")
 	}
 }
 
